@@ -8,7 +8,7 @@ from ..runner import Result
 
 ID = "C01"
 LEVEL = "proof"
-LEVEL_TEXT = ("Kernel-checked theorem C01.roundtrip: for every class environment, annotation of U with Optional-only unions, valid value of any size/depth and leaf conversions satisfying LeafLaws, unmarshal(T, marshal(v)) = v (structural equality: classes and UTC offsets included); unconditional on the core scalars (roundtrip_core). Multi-member unions: negation proved at a witness, recorded as known findings. Model tied to /repo by a per-run differential correspondence (marshal and unmarshal outputs, forked children) and the dispatch-table adequacy `decide`; the property itself is also evaluated directly on the real library.")
+LEVEL_TEXT = ("Kernel-checked theorem C01.roundtrip: for every class environment, annotation of U with Optional-only unions, valid value of any size/depth and leaf conversions satisfying LeafLaws, unmarshal(T, marshal(v)) = v (structural equality: classes and UTC offsets included); unconditional on the core scalars and on enums with bool/int/str values whose class environment passes the decidable check `enumWF` (roundtrip_core; Lemmas/EnumRT.lean: each member's value, read as the enum routine reads it, meets that member first — equivalent to the enum leaf law on primitive-valued enums, `enumWF_iff_enumRT`); without it the round trip is refuted at `A = 1; B = \"1\"` (roundtrip_false_for_shadowed_member, known finding enumValueShadow). Multi-member unions: negation proved at a witness, recorded as known findings. Model tied to /repo by a per-run differential correspondence (marshal and unmarshal outputs, forked children) and the dispatch-table adequacy `decide`; the property itself is also evaluated directly on the real library.")
 LEVEL_NOTE = ("Trusted: Lean kernel; axioms propext, Classical.choice, Quot.sound; the hand-written model (tied by correspondence, not verified); harness encoders/generators; LeafLaws hypothesis for Decimal/Fraction/UUID/path/pattern/temporal leaves (CPython/pendulum printers and parsers).")
 TECHNIQUE = "Lean 4 proof by induction on value depth over an executable model; regenerated dispatch tables re-decided; differential correspondence + direct round-trip oracle"
 DESIGN_REF = "DESIGN.md §5 C01"
